@@ -129,5 +129,11 @@ def gen_diff_inputs(tier):
 
 
 M.contracts['diff'].domain = 'gen_seq_pairs'
+# relied upon by update_random_variable_records / update_thetas: within a replaced run the
+# deletions come before the insertions (tie-break of _diff).  Not proved (needs the Lipschitz
+# property of the LCS matrix); checked on the bounded domain only.
+M.contracts['diff'].ensures_bounded = [
+    'all(not (result[q][0] == 1 and result[q + 1][0] == -1) for q in range(len(result) - 1))',
+]
 M.contracts['_matrix'].domain = 'gen_matrix_inputs'
 M.contracts['_diff'].domain = 'gen_diff_inputs'
